@@ -895,10 +895,12 @@ class IsoHybrid:
         for i in range(1, 5):
             raw = b'\x00' * 16
             if i == self.part_entry:
-                cc = self._calc_cc(iso_size)[0]
+                (cc, padding) = self._calc_cc(iso_size)
                 esect = self.geometry_sectors + (((cc - 1) & 0x300) >> 2)
                 ecyle = (cc - 1) & 0xff
-                psize = cc * self.geometry_heads * self.geometry_sectors - self.part_offset
+                # Only the CHS ending cylinder is clamped to 1024; the size of
+                # the partition in sectors always covers the whole image.
+                psize = (iso_size + padding) // 512 - self.part_offset
                 raw = struct.pack('<BBBBBBBBLL', 0x80, self.bhead, self.bsect,
                                   self.bcyle, self.ptype, self.ehead, esect,
                                   ecyle, self.part_offset, psize)
